@@ -46,6 +46,12 @@ def check_supported(ast_root: ast.Module):
                 if not isinstance(node, ast.comprehension)
                 else "Unable to convert asynchronous comprehension"
             )
+        if isinstance(node, ast.ImportFrom) and any(
+            _alias.name == "*" for _alias in node.names
+        ):
+            raise RuntimeError(
+                utils.ast_debug_info(node) + "Unable to convert 'from ... import *'"
+            )
         if isinstance(node, ast.stmt) and type(node) not in ast2pending:
             raise RuntimeError(
                 utils.ast_debug_info(node)
